@@ -55,13 +55,13 @@ func init() {
 		),
 		Exclude: []string{`tds\.(Conn)\)`},
 		Claim: func(o *Obligation) bool {
-			if kindIn(o, safetyKinds...) || kindIn(o, "alloc", "auto-entry", "auto-keep") {
-				return true
+			// everything except the clauses that belong to C07's claim; the structural
+			// obligations (type invariants, typestate, frames, loop invariants) carry
+			// the assumptions the safety obligations rely on.
+			if (o.Kind == "iface" || o.Kind == "post") && labelHas(o, "neb-on-dry", "ok-not-dry") {
+				return false
 			}
-			if o.Kind == "pre" {
-				return labelHas(o, "n>=0", "binary.", "nonnil", "/safe")
-			}
-			return false
+			return true
 		},
 		Assumptions: []string{
 			"library functions called with arguments satisfying their stated preconditions do not panic",
